@@ -285,6 +285,32 @@ func genC02(seed int64, tier string) *Scenario {
 			sc.Ops = append(sc.Ops, Op{Kind: "deliver"})
 		}
 	}
+	if docs[len(docs)-1] == "/outside/o.lua" && r.Intn(3) == 0 && len(sc.Ops) > 2 {
+		// the folder of the outside document becomes a workspace folder while the document is open
+		// (and maybe edited), and sometimes stops being one again
+		folder := func(add bool) Op {
+			ev := map[string]interface{}{"added": []interface{}{}, "removed": []interface{}{}}
+			k := "removed"
+			if add {
+				k = "added"
+			}
+			ev[k] = []interface{}{map[string]interface{}{"uri": "file:///outside", "name": "outside"}}
+			b, _ := json.Marshal(ev)
+			return Op{Kind: "folders", Params: b}
+		}
+		at := 1 + r.Intn(len(sc.Ops)-1)
+		ops := append([]Op{}, sc.Ops[:at]...)
+		ops = append(ops, folder(true))
+		rest := sc.Ops[at:]
+		if r.Intn(3) == 0 && len(rest) > 1 {
+			cut := 1 + r.Intn(len(rest)-1)
+			ops = append(ops, rest[:cut]...)
+			ops = append(ops, folder(false))
+			rest = rest[cut:]
+		}
+		sc.Ops = append(ops, rest...)
+		sc.Knobs["folder_ops"] = true
+	}
 	if r.Intn(5) == 0 {
 		// the same document spelled differently from message to message (percent-encoded or not,
 		// separators below the root as %5C or as backslashes): LSP asks servers to be robust against
@@ -340,6 +366,7 @@ func checkC02(t *testing.T, sc *Scenario) *Verdict {
 	}
 	var endDocs []endDoc
 	var endDisk []File
+	var endFolders []string
 	lastCfg := -1
 	lastWin := 0
 	announced := map[string]bool{} // documents the server said it lost track of (until replaced or re-opened)
@@ -374,6 +401,7 @@ func checkC02(t *testing.T, sc *Scenario) *Verdict {
 				}
 			}
 			endDisk = DiskFiles()
+			endFolders = e.CurFolders()
 		}
 		if op.Async || op.Kind == "step" {
 			return ""
@@ -439,7 +467,7 @@ func checkC02(t *testing.T, sc *Scenario) *Verdict {
 		return v.violation("c02-run-"+res.Outcome, res.Outcome, res.Detail, c)
 	}
 	if len(endDocs) > 0 {
-		fresh := &Scenario{Prop: "C02", Files: endDisk, Plugin: sc.Plugin, FirstCfg: true}
+		fresh := &Scenario{Prop: "C02", Files: endDisk, Plugin: sc.Plugin, FirstCfg: true, Folders: endFolders}
 		if lastCfg >= 0 {
 			fresh.Ops = append(fresh.Ops, sc.Ops[lastCfg])
 		}
